@@ -138,12 +138,18 @@ class Check:
         """Regenerate Gen/*.v, build Properties/<pid>.vo and its dependency chain (full .vo build),
         capture Print Assumptions.  Returns True when every obligation is discharged."""
         import tables
-        try:
-            tables.regenerate()
-        except tables.TranslatorError as e:
-            self.broken.append({"kind": "translator", "name": "harness/tables.py", "detail": str(e)})
-            self.say(f"[{self.pid}] translator failed closed: {e}")
+        terrs: dict = {}
+        tables.regenerate(terrs)
         ensure_makefile()
+        # a translator plug-in that failed closed concerns this property only if its Gen file is among the
+        # Coq dependencies of this property's files (otherwise another property's check reports it)
+        deps = coq_dependencies([f"Properties/{self.pid}.vo", f"Corr/{self.pid}.vo"])
+        for stem, msg in terrs.items():
+            if deps is None or f"Gen/{stem}.vo" in deps or stem == f"T_{self.pid}":
+                self.broken.append({"kind": "translator", "name": f"Gen/{stem}.v", "detail": msg})
+                self.say(f"[{self.pid}] translator failed closed: {msg}")
+            else:
+                self.say(f"[{self.pid}] note: translator plug-in for Gen/{stem}.v failed closed (not a dependency of {self.pid}): {msg[:200]}")
         prop = f"Properties/{self.pid}.v"
         src = (COQ / prop).read_text()
         names = re.findall(r"^\s*(?:Theorem|Lemma|Example|Corollary)\s+(\w+)", src, re.M)
@@ -387,6 +393,32 @@ def enclosing_lemma(path: Path, line: int) -> str | None:
         if m:
             return f"{path.relative_to(COQ)}:{m.group(1)}"
     return None
+
+
+def coq_dependencies(targets: list[str]) -> set[str] | None:
+    """transitive .vo dependencies of the given targets, from coq_makefile's dependency file (None if unavailable)"""
+    dep = COQ / ".Makefile.d"
+    rc, _ = sh(["make", "-C", str(COQ), ".Makefile.d"], timeout=300)
+    if not dep.exists():
+        return None
+    graph: dict[str, set[str]] = {}
+    for line in dep.read_text().splitlines():
+        if ":" not in line:
+            continue
+        lhs, rhs = line.split(":", 1)
+        outs = [x for x in lhs.split() if x.endswith(".vo")]
+        ins = {x for x in rhs.split() if x.endswith(".vo")}
+        for o in outs:
+            graph.setdefault(o, set()).update(ins)
+    seen: set[str] = set()
+    todo = list(targets)
+    while todo:
+        t = todo.pop()
+        if t in seen:
+            continue
+        seen.add(t)
+        todo.extend(graph.get(t, ()))
+    return seen
 
 
 def ensure_makefile() -> None:
